@@ -531,6 +531,67 @@ def c19_r7(ctx):
     flag_strategy_agreement(ctx)
 
 
+def forward_scheduling_inheritance(ctx):
+    """binary_connection: the scheduler connects a forward (OnlyOne) producer replica only to the same-index consumer replica, so the
+    new block must inherit the scheduling of an input it is reached from by a forward link (two sites: the match that picks the
+    scheduling and the End operators built with the strategies)"""
+    facts = ctx.facts
+    bc = facts.one(r'Stream::<Op>::binary_connection$')
+    sym = q.sym(facts, bc)
+    ends = {}
+    for bi, t in bc.calls():
+        if (t['callee'].get('path') or '').endswith('::add_operator') and len(t['args']) >= 2:
+            blk_s = render(strip(sym.operand(t['args'][0])))
+            x = strip(sym.operand(t['args'][1]))
+            if x[0] == 'agg' and x[1][0] == 'closure':
+                for cap in x[2]:
+                    r = render(strip(cap)).lstrip('&*')
+                    if 'strategy' in r:
+                        ends[r] = blk_s
+    if len(ends) != 2:
+        raise AnchorMissing('binary_connection: expected two End operators built with the two strategies (found %s)' % ends)
+    writes = []
+    for bi, blk in enumerate(bc.blocks):
+        if blk['cleanup']:
+            continue
+        for st in blk['s']:
+            if st['k'] == 'assign' and not is_local(st['lhs']) and st['lhs'][-1][0:1] == ['f'] and st['lhs'][-1][2] == 'scheduling':
+                writes.append((bi, st))
+    if not writes:
+        raise AnchorMissing('binary_connection never sets the scheduling of the new block')
+    for bi, st in writes:
+        o = st['rv'].get('o')
+        vloc = q.base_local(bc, o) if (st['rv']['r'] == 'use' and o and o[0] != 'k') else None
+        defs = bc.defs().get(vloc, []) if vloc is not None else []
+        if not defs:
+            raise Inconclusive('binary_connection: the scheduling value is not a local with visible definitions')
+        for (db, ds) in defs:
+            node = bc.def_node((db, ds))
+            val = (node['callee'].get('path') or '').rsplit('::', 2)[-2] + '::default()' if ds == 'T' else render(strip(sym.rvalue(node['rv'])))
+            dnf = q.cond_of_block(facts, bc, db)
+            ctx.inst('binary_connection|scheduling=%s' % val[:60], {'at': (node.get('at') or st['at']), 'conditions': show_dnf(dnf)})
+            for c in dnf:
+                fwd = sorted(a[1].lstrip('&*') for a in c if a[0] == 'is' and a[2] == 'OnlyOne')
+                if not fwd:
+                    continue
+                allowed = [ends[x] + '.scheduling' for x in fwd if x in ends]
+                if val not in allowed:
+                    ctx.viol('%s|forward-scheduling|%s' % (bc.path, '+'.join(fwd)), node.get('at') or st['at'],
+                             'when %s is OnlyOne (a forward link) the new block gets `%s` as its scheduling instead of %s: with different '
+                             'replications the producer replicas without a same-index consumer are left unconnected and their elements '
+                             'are dropped silently' % (' and '.join(fwd), val[:60], ' / '.join(allowed)), None)
+
+
+@rule('C03', 'R6', 'a block reached through a forward (OnlyOne) link of a binary connection inherits the scheduling of that input')
+def c03_r6(ctx):
+    forward_scheduling_inheritance(ctx)
+
+
+@rule('C19', 'R9', 'binary connections: forward links get a consumer with the producer\'s scheduling')
+def c19_r9(ctx):
+    forward_scheduling_inheritance(ctx)
+
+
 @rule('C19', 'R8', 'in-repo callers (lib, tests, examples, benches) of the forward-link combinators and the replication they pass', tier='thorough')
 def c19_r8(ctx):
     facts = getattr(ctx.facts, 'all_targets', None) or ctx.facts
